@@ -398,7 +398,7 @@ def gen_op(rng, impl, idx, a, vals, scale=False):
         m = rng.randint(50, 200) if scale else rng.choice([0, 0, 1, 2, 3, 4])
         spec, b = gen_operand(rng, impl, (m,) + a.shape[1:], vals, sparse_base=common if scale else None)
         return {"op": "append", "other": spec}
-    if name == "update" and scale:
+    if name == "update" and scale and a.size:
         # 2-5 cells, mostly of ONE column and mostly rows that now hold an explicit (non-common) value, given 2+ different
         # values; the dict order of the update is random, so the per-column row ids are often not ascending
         col = tuple(rng.randrange(e) for e in a.shape[1:])
@@ -1471,8 +1471,17 @@ def run_check(ctx, prop):
         "items of set-update operands whose value is None are dropped by the abstraction",
         "NumPy (concatenate, boolean/fancy indexing, take, unique, shares_memory) as the dense-array oracle",
     ]
+    import time
+    phases = {}
+    t_ph = [time.time()]
+
+    def phase(name):
+        phases[name] = round(phases.get(name, 0) + time.time() - t_ph[0], 1)
+        t_ph[0] = time.time()
+        ctx.coverage["phase_seconds"] = phases
     pr = ctx.prove(prop + ".v")
-    ok_chk, log_chk = core.coq_make(["theories/IIndex/Check.vo"])      # the executable checkers are not in the theorem's cone
+    ok_chk, log_chk = core.coq_make(["theories/IIndex/Check.vo"])
+    phase("prove + build checkers")      # the executable checkers are not in the theorem's cone
     ctx.assumptions = ["Print Assumptions: " + x for x in pr["assumptions"]] + [
         "row counts stay below 2^32 (uint32 row ids); category values are Python ints; set-update operands hold sorted uint32 arrays"]
     ctx.coverage["print_assumptions"] = pr["assumptions"]
@@ -1599,11 +1608,13 @@ def run_check(ctx, prop):
         for _ in range(1500 if ctx.tier == "quick" else 8000):      # fresh small arrays aimed at interleaving merges
             add_mapped(fresh_array(rng), None)
     cov.stop()
+    phase("small-scope histories on the implementation")
     # ---- scale stream (a): histories over indexes of hundreds of rows ----
     n_scale, n_huge = (40, 3) if ctx.tier == "quick" else (400, 8)
     LIT_CAP, EQ_CAP = 8000, 3000
     scases, sowners = [], []
-    scale_steps = scale_oracle_only = scale_eq_oracle_only = 0
+    scale_steps = scale_oracle_only = scale_eq_oracle_only = scale_eq_coq = 0
+    EQ_MAX = 300 if ctx.tier == "quick" else 3000
     scale_rows = collections.Counter()
     scale_ops = collections.Counter()
     for k in range(n_scale):
@@ -1633,12 +1644,13 @@ def run_check(ctx, prop):
             for c in h.eqcases:
                 lit = lit_ecase(*c)
                 eq_total += 1
-                if len(lit) > EQ_CAP:
+                if len(lit) > EQ_CAP or scale_eq_coq >= EQ_MAX:
                     scale_eq_oracle_only += 1
                 elif lit not in eqseen:
                     eqseen.add(lit)
                     eqcases.append(lit)
                     eqowners.append(hn)
+                    scale_eq_coq += 1
     # ---- scale stream (b): 'huge' one-step cases, oracle only ----
     huge_judgements = 0
     huge_shapes = []
@@ -1680,12 +1692,15 @@ def run_check(ctx, prop):
     ctx.samples = [{"before": st.before, "op": st.op, "after": st.after} for h in hists[:40] for st in h.steps[:1]
                    if st.before["entries"] and st.op["op"] in ("append", "update", "filtered", "collapsed")][:4]
 
+    phase("scale + huge cases on the implementation")
     # ---- Coq side ----
     res = core.run_cases(prop.lower() + "steps", PRELUDE, cases, "scase", CHK[prop], "explain", shard_size=400, scratch=None)
+    phase("coq: small-scope steps")
     failing = list(res.failing)
     errors = list(res.errors)
     explain = res.explain
-    res_s = core.run_cases(prop.lower() + "scale", PRELUDE, scases, "scase", CHK[prop], "explain", shard_size=30)
+    res_s = core.run_cases(prop.lower() + "scale", PRELUDE, scases, "scase", CHK[prop], "explain", shard_size=15)
+    phase("coq: scale steps")
     failing += [len(cases) + k for k in res_s.failing]
     errors += res_s.errors
     explain = (explain or "") + (res_s.explain or "")
@@ -1730,6 +1745,7 @@ def run_check(ctx, prop):
         else:
             ctx.notes.append("args_ok_b statistic not available: IIndex/ArgsCheck.v (or a proof file it imports) does not compile")
     ctx.coverage["coq_case_shards_failed"] = len(errors)
+    phase("coq: eq / load / from_array / args suites")
 
     # ---- verdicts ----
     mine = [p for p in py_problems if p[2] == prop]
